@@ -45,6 +45,8 @@ func runC07(w *World, r *Report) {
 	hrResponseHeadersCopied(w, r, "R4")
 	hrHeadersAliasing(w, r, "R4")
 	hrDeepCopyAlwaysCopies(w, r, "R4")
+	hrOneScopePerEncoder(w, r, "R6")
+	hrTokenLookupAsWritten(w, r, "R4")
 	hrResponseActionAvailable(w, r, "R5")
 	hrSetResponseSwitchesBothTypes(w, r, "R5")
 	hrRebuiltEarlyResponse(w, r, "R4")
